@@ -1,6 +1,7 @@
 package main
 
 import (
+	"go/token"
 	"go/types"
 	"fmt"
 	"sort"
@@ -199,12 +200,13 @@ func dedupDelta(ds []delta) []delta {
 }
 
 func runC08(e *Engine, r *Report, tier string) {
-	r.Explanation = "C08, structural necessary conditions. R1 (signed-operation balance): for every conversion routine — an fx-core function that, with its fx-core callees inlined, performs both a bank value operation and an ERC-20 value operation — on every success path the change of the coin escrow (erc20 module account and the wrapper contract) equals the change of the ERC-20 supply, and the change of the module's ERC-20 escrow equals the change of the coin supply (operations: account->escrow +1, escrow->account -1, mint coins +escrow +supply, burn coins -escrow -supply, token mint/burn, token transfer to/from the module); every operation's amount is rooted in the routine's single amount parameter; coins are taken only from the sender parameter and paid only to the receiver parameter; R2 no keeper-level EVM execution (a fresh committed StateDB) is reachable from the native-action closure of a precompile — token calls under a live EVM must go through the running EVM; R3 the pair record and its by-denom / by-contract indexes (erc20 0x01,0x02,0x03) are written and deleted only together, a lone write of 0x01 only re-stores a pair that was just read; R4 the blocked-address test of a conversion is applied to the message's receiver; R5 every classifier of the IBC-voucher namespace (HasPrefix/TrimPrefix with a constant starting with `ibc`) tests the full prefix `ibc/` — siblings that decide lock-vs-burn and the backing escrow must agree on what a voucher is; R6 an index entry (by-contract, by-denom, alias) that is deleted because a lookup found it is deleted under the very key that was looked up; R7 the error of every bank / ERC-20 value operation of a conversion routine is consumed (tested with a clean failing branch, returned or wrapped) on every path from the call — an error that a later assignment overwrites before the test is reported. Not decided: contract bytecode, ERC-20 balances summing to supply, arbitrary histories."
+	r.Explanation = "C08, structural necessary conditions. R1 (signed-operation balance): for every conversion routine — an fx-core function that, with its fx-core callees inlined, performs both a bank value operation and an ERC-20 value operation — on every success path the change of the coin escrow (erc20 module account and the wrapper contract) equals the change of the ERC-20 supply, and the change of the module's ERC-20 escrow equals the change of the coin supply (operations: account->escrow +1, escrow->account -1, mint coins +escrow +supply, burn coins -escrow -supply, token mint/burn, token transfer to/from the module); every operation's amount is rooted in the routine's single amount parameter; coins are taken only from the sender parameter and paid only to the receiver parameter; R2 no keeper-level EVM execution (a fresh committed StateDB) is reachable from the native-action closure of a precompile — token calls under a live EVM must go through the running EVM; R3 the pair record and its by-denom / by-contract indexes (erc20 0x01,0x02,0x03) are written and deleted only together, a lone write of 0x01 only re-stores a pair that was just read; R4 the blocked-address test of a conversion is applied to the message's receiver; R5 every classifier of the IBC-voucher namespace (HasPrefix/TrimPrefix with a constant starting with `ibc`) tests the full prefix `ibc/` — siblings that decide lock-vs-burn and the backing escrow must agree on what a voucher is; R6 an index entry (by-contract, by-denom, alias) that is deleted because a lookup found it is deleted under the very key that was looked up; R7 the error of every bank / ERC-20 value operation of a conversion routine is consumed (tested with a clean failing branch, returned or wrapped) on every path from the call — an error that a later assignment overwrites before the test is reported. R8 wherever the result of an ERC-20 `transfer` / `transferFrom` call is decoded, every success return is guarded by the decoded boolean being true (in the decoding function, or in each caller when the boolean is handed up) — EIP-20 lets a token report failure by returning false. Not decided: contract bytecode, ERC-20 balances summing to supply, arbitrary histories."
 	r.Rule("R1", "per success path: Δescrow = ΔtokenSupply and ΔtokenEscrow = ΔcoinSupply; single amount; sender debited, receiver credited", 5, "conversion routines found by their operations")
 	r.Rule("R2", "no nested keeper-level EVM under a precompile native action", 1, "ExecuteNativeAction closures")
 	r.Rule("R3", "token-pair record and indexes co-written", 3, "writers of erc20:01/02/03")
 	r.Rule("R4", "blocked-address test applies to the receiver", 2, "conversion handlers")
 	r.Rule("R6", "an index entry deleted because a lookup found it is deleted under the key that was looked up", 1, "lookup-guarded deletes of erc20 index families")
+	r.Rule("R8", "an ERC-20 transfer / transferFrom that returns false is an error: the decoded boolean guards every success return (here or in the caller it is handed to)", 2, "decoders of transfer / transferFrom results")
 	r.Rule("R7", "the error of every leg (bank / ERC-20 value operation) of a conversion routine is propagated on every path", 8, "value operations of the conversion routines")
 	{
 		nsites := 0
@@ -494,6 +496,7 @@ func runC08(e *Engine, r *Report, tier string) {
 			}
 		}
 	}
+	e.c08TokenResultChecked(r)
 	if nconv < 4 {
 		r.Fail("R1", "routines", "", fmt.Sprintf("UNRESOLVED-ANCHOR: %d conversion routines found", nconv))
 	}
@@ -665,4 +668,147 @@ func keysOf(m map[string]bool) []string {
 	}
 	sort.Strings(out)
 	return out
+}
+
+// c08TokenResultChecked: R8.
+func (e *Engine) c08TokenResultChecked(r *Report) {
+	n := 0
+	for _, fn := range e.Funcs {
+		if isAuxPkg(fnPkgPath(fn)) {
+			continue
+		}
+		fn := fn
+		allCalls(fn, func(c ssa.CallInstruction) {
+			nm := callName(c)
+			if nm != "UnpackIntoInterface" && nm != "Unpack" {
+				return
+			}
+			method := ""
+			for _, a := range c.Common().Args {
+				if s, ok := constString(a); ok && (s == "transfer" || s == "transferFrom") {
+					method = s
+				}
+			}
+			if method == "" {
+				return
+			}
+			n++
+			ck := e.CanonFnKey(fn) + " " + method + " result"
+			// the decoded boolean: a bool field of the struct handed to UnpackIntoInterface, or a bool asserted out of Unpack's result
+			isResult := func(v ssa.Value) bool {
+				ok := false
+				if u, isU := stripConv(v).(*ssa.UnOp); isU {
+					if fa, isFA := u.X.(*ssa.FieldAddr); isFA {
+						for _, a := range c.Common().Args {
+							if mi, isMI := a.(*ssa.MakeInterface); isMI {
+								a = mi.X
+							}
+							if a == fa.X {
+								return true
+							}
+						}
+					}
+				}
+				e.Slice(v, SliceOpts{MaxDepth: 8}, func(x ssa.Value) Verdict {
+					switch y := x.(type) {
+					case *ssa.Alloc:
+						for _, a := range c.Common().Args {
+							if mi, isMI := a.(*ssa.MakeInterface); isMI {
+								a = mi.X
+							}
+							if a == ssa.Value(y) {
+								ok = true
+								return Accept
+							}
+						}
+					case *ssa.Call:
+						if ssa.Value(y) == c.(ssa.Value) {
+							ok = true
+							return Accept
+						}
+					case *ssa.TypeAssert:
+						if b, isB := y.AssertedType.Underlying().(*types.Basic); !isB || b.Kind() != types.Bool {
+							return Reject // asserted to something that is not the bool the ABI yields
+						}
+					}
+					return Continue
+				})
+				return ok
+			}
+			guarded := func(ret *ssa.Return, f *ssa.Function, isRes func(ssa.Value) bool) bool {
+				for _, g := range GuardsOf(ret) {
+					v, pol := g.Cond, g.Pol
+					for {
+						u, isU := v.(*ssa.UnOp)
+						if !isU || u.Op != token.NOT {
+							break
+						}
+						v, pol = u.X, !pol
+					}
+					if b, isB := v.Type().Underlying().(*types.Basic); isB && b.Kind() == types.Bool && pol && isRes(v) {
+						return true
+					}
+				}
+				return false
+			}
+			bad := ""
+			handedUp := -1
+			for _, ret := range SuccessReturns(fn) {
+				if !canReach(c, ret) && !Dominates(c, ret) {
+					continue
+				}
+				if guarded(ret, fn, isResult) {
+					continue
+				}
+				// the boolean itself is returned: the callers decide
+				up := false
+				for i, rv := range ret.Results {
+					if b, isB := rv.Type().Underlying().(*types.Basic); isB && b.Kind() == types.Bool && isResult(rv) {
+						up = true
+						handedUp = i
+					}
+				}
+				if !up {
+					bad = "a success return of " + e.FnKey(fn) + " is not guarded by the decoded boolean being true"
+				}
+			}
+			if bad == "" && handedUp >= 0 {
+				ncs := 0
+				for _, cs := range e.CallSites(fn) {
+					if isAuxPkg(fnPkgPath(cs.Caller)) {
+						continue
+					}
+					ncs++
+					cv, ok := cs.Call.(ssa.Value)
+					if !ok {
+						bad = "the boolean handed up by " + fn.Name() + " is dropped in " + e.FnKey(cs.Caller)
+						continue
+					}
+					isUp := func(v ssa.Value) bool {
+						ex, ok := stripConv(v).(*ssa.Extract)
+						return ok && ex.Tuple == cv && ex.Index == handedUp
+					}
+					for _, ret := range SuccessReturns(cs.Caller) {
+						if !canReach(cs.Call, ret) && !Dominates(cs.Call, ret) {
+							continue
+						}
+						if !guarded(ret, cs.Caller, isUp) {
+							bad = "a success return of " + e.FnKey(cs.Caller) + " is not guarded by the boolean " + fn.Name() + " decoded"
+						}
+					}
+				}
+				if ncs == 0 {
+					bad = ""
+				}
+			}
+			if bad != "" {
+				r.Fail("R8", ck, e.InstrPos(c), "the token's `"+method+"` result is decoded but "+bad+": a token that reports failure by returning false (allowed by EIP-20) is treated as having moved the amount — coins are minted / released against tokens that never arrived")
+			} else {
+				r.Ok("R8", ck, e.InstrPos(c), "every success return requires the decoded boolean to be true")
+			}
+		})
+	}
+	if n == 0 {
+		r.Fail("R8", "transfer decoders", "", "UNRESOLVED-ANCHOR: no decoder of an ERC-20 transfer / transferFrom result")
+	}
 }
